@@ -91,8 +91,15 @@ def instantiate_type(
         # Replace the part of the template with the instantiation
         # (only the scope component that *is* the template parameter, not
         # every occurrence of its spelling inside other identifiers)
+        # (a templated instantiation keeps its arguments next to its own
+        # name: Foo<int>::Value, not Foo::Value<int>)
+        scope = instantiation.name
+        if instantiation.instantiations:
+            scope += "<{}>".format(", ".join(
+                inst.to_cpp() for inst in instantiation.instantiations))
+            instantiation.instantiations = []
         instantiation.name = "::".join(
-            instantiation.name if part == scoped_template else part
+            scope if part == scoped_template else part
             for part in str_arg_typename.split("::"))
         return parser.Type(
             typename=instantiation,
